@@ -662,6 +662,7 @@ func (d *ColumnDetector) createColumnsFromGaps(fragments []text.TextFragment, ga
 // validateColumns validates and cleans up detected columns
 func (d *ColumnDetector) validateColumns(columns []Column) []Column {
 	var valid []Column
+	var pending []text.TextFragment // text of narrow columns seen before the first valid one
 
 	for _, col := range columns {
 		// Skip empty columns
@@ -669,12 +670,30 @@ func (d *ColumnDetector) validateColumns(columns []Column) []Column {
 			continue
 		}
 
-		// Skip columns that are too narrow
+		// A region that is too narrow is not a column of its own, but its text
+		// must not be lost: fold it into the neighbouring column
 		if col.BBox.Width < d.config.MinColumnWidth {
+			if len(valid) > 0 {
+				prev := &valid[len(valid)-1]
+				prev.Fragments = append(prev.Fragments, col.Fragments...)
+				prev.BBox = fragmentsBBox(prev.Fragments)
+			} else {
+				pending = append(pending, col.Fragments...)
+			}
 			continue
 		}
 
+		if len(pending) > 0 {
+			col.Fragments = append(pending, col.Fragments...)
+			col.BBox = fragmentsBBox(col.Fragments)
+			pending = nil
+		}
 		valid = append(valid, col)
+	}
+
+	// Only narrow regions: keep their text as a single column
+	if len(pending) > 0 {
+		valid = append(valid, Column{BBox: fragmentsBBox(pending), Fragments: pending})
 	}
 
 	// Re-index columns
